@@ -321,7 +321,7 @@ func (ex *Exec) fsIntrinsic(fn *ssa.Function, name string, args []Value) (Value,
 		s.opens++
 		return Tuple{h, Iface{}}, true
 	case "(*os.File).Close":
-		h := args[0].(*FileObj)
+		h := fileObjOf(args[0])
 		if h == nil {
 			return ex.fsErr("invalid"), true
 		}
@@ -331,7 +331,7 @@ func (ex *Exec) fsIntrinsic(fn *ssa.Function, name string, args []Value) (Value,
 		h.closed = true
 		return Iface{}, true
 	case "(*os.File).Write":
-		h := args[0].(*FileObj)
+		h := fileObjOf(args[0])
 		if h == nil || h.closed {
 			return Tuple{ex.ts.Const(64, 0), ex.fsErr("closed")}, true
 		}
@@ -351,7 +351,7 @@ func (ex *Exec) fsIntrinsic(fn *ssa.Function, name string, args []Value) (Value,
 		}
 		return Tuple{ex.ts.Const(64, uint64(len(b))), Iface{}}, true
 	case "(*os.File).Read":
-		h := args[0].(*FileObj)
+		h := fileObjOf(args[0])
 		if h == nil || h.closed {
 			return Tuple{ex.ts.Const(64, 0), ex.fsErr("closed")}, true
 		}
@@ -373,7 +373,10 @@ func (ex *Exec) fsIntrinsic(fn *ssa.Function, name string, args []Value) (Value,
 		h.pos += n
 		return Tuple{ex.ts.Const(64, uint64(n)), Iface{}}, true
 	case "(*os.File).Seek":
-		h := args[0].(*FileObj)
+		h := fileObjOf(args[0])
+		if h == nil {
+			return Tuple{ex.ts.Const(64, 0), ex.fsErr("invalid argument")}, true
+		}
 		off := int(int64(ex.concretize(args[1].(*Term))))
 		wh := ex.concretize(args[2].(*Term))
 		switch wh {
@@ -390,7 +393,10 @@ func (ex *Exec) fsIntrinsic(fn *ssa.Function, name string, args []Value) (Value,
 		}
 		return Tuple{ex.ts.Const(64, uint64(h.pos)), Iface{}}, true
 	case "(*os.File).Truncate":
-		h := args[0].(*FileObj)
+		h := fileObjOf(args[0])
+		if h == nil {
+			return ex.fsErr("invalid argument"), true
+		}
 		sz := int(int64(ex.concretize(args[1].(*Term))))
 		if sz < 0 {
 			return ex.fsErr("invalid"), true
@@ -405,7 +411,10 @@ func (ex *Exec) fsIntrinsic(fn *ssa.Function, name string, args []Value) (Value,
 		h.node.content = c[:sz]
 		return Iface{}, true
 	case "(*os.File).Stat":
-		h := args[0].(*FileObj)
+		h := fileObjOf(args[0])
+		if h == nil {
+			return Tuple{Iface{}, ex.fsErr("invalid argument")}, true // (*os.File)(nil).Stat() = ErrInvalid
+		}
 		return Tuple{Iface{t: fileInfoT, v: &FileInfoObj{h.node}}, Iface{}}, true
 	}
 	if fn.Pkg == ex.pkg {
@@ -622,11 +631,40 @@ func (ex *Exec) fsIntrinsic(fn *ssa.Function, name string, args []Value) (Value,
 			if tag == "-" {
 				continue
 			}
+			if strings.Contains(tag, ",omitempty") && ex.jsonEmpty(srcObj.fields[i]) {
+				continue // the encoder left the member out: the decoder keeps what the destination held
+			}
 			ex.copyInto(dst.fields[i], ex.cloneLoc(srcObj.fields[i]))
 		}
 		return Iface{}, true
 	}
 	return nil, false
+}
+
+// jsonEmpty: encoding/json's "empty value" (false, 0, "", nil) for a scalar member; decided with the solver if symbolic
+func (ex *Exec) jsonEmpty(loc Loc) bool {
+	c, ok := loc.(*Cell)
+	if !ok {
+		return false
+	}
+	switch v := c.v.(type) {
+	case *Term:
+		if v.sort == BoolSort {
+			return ex.decide(ex.ts.Not(v))
+		}
+		return ex.decide(ex.ts.Eq(v, ex.ts.Const(v.sort, 0)))
+	case Str:
+		return len(v.b) == 0
+	case Ptr:
+		return v.isNil()
+	}
+	return false
+}
+
+// fileObjOf: the open-file object behind an *os.File value; nil for a nil *os.File
+func fileObjOf(v Value) *FileObj {
+	h, _ := v.(*FileObj)
+	return h
 }
 
 func minI(a, b int) int {
